@@ -177,7 +177,7 @@ func replayC15(c *Ctx, rule string, raw json.RawMessage) {
 
 func runC15(c *Ctx, phase string) {
 	u := c.U
-	n := c.Pick(300000, 2000000)
+	n := c.Pick(300000, 6000000)
 	c.Meta("invalid strings prefix + bad + suffix: prefix = generated valid expression (containing listed and synthesised -or-later forms - zero to several per prefix -, '+', -only, multiple spaces, parentheses, refs, WITH) "+
 		"followed by an operator or '(' ; bad in {unknown id, 'LicenseRef-', 'DocumentRef-', 'LicenseRef-!x', a non-id byte, a multi-byte rune}; arbitrary suffix; passed to ExtractLicenses, to Satisfies as expression and "+
 		"as one allowed entry at a random position (exactly one argument invalid per call). Every offset-bearing message is checked against the caller's string. distinct = (function, invalid string); non-trivial = an offset-bearing error was returned",
